@@ -298,8 +298,31 @@ class Analyzer:
 
     LEN_FNS = ('core::slice::<impl [T]>::len', 'std::vec::Vec::<T, A>::len', 'arrayvec::ArrayVec::<T, CAP>::len', 'core::str::<impl str>::len')
 
+    def pure_atom(self, n, exprs, ty=''):
+        a = 'pure:%s(%s)' % ('::'.join(n.split('::')[-2:]), ','.join(fmt(e) for e in exprs))
+        if not hasattr(self, '_pure_ty'):
+            self._pure_ty = {}
+        self._pure_ty[a] = ty
+        return a
+
+    def _pure_arg(self, a, depth):
+        """Value of an argument of a pure call; `&x` of an unmodified x is named by x."""
+        if is_place(a) and not a['pl']['p']:
+            sd = self.fn.single_def(a['pl']['l'])
+            if sd and sd[2] == 'assign' and sd[3]['rv']['k'] == 'ref' and not sd[3]['rv'].get('mut'):
+                c = self.fn.canon(sd[3]['rv']['pl'])
+                e = lin(self.atom_local(c['l'])) if not c['p'] else lin(self.atom_place(c))
+                if self.stable_since(e, (sd[0], sd[1])):
+                    return e
+        return self.ev_op(a, depth)
+
     def ev_call(self, t, depth, b):
         n = callee_name(t)
+        if n in getattr(self.S, 'pure', ()):
+            # D6: a function declared pure by the rule module: its result is a function of its argument values
+            es = [self._pure_arg(a, depth + 1) for a in t['args']]
+            if all(e is not None for e in es):
+                return lin(self.pure_atom(n, es, self.fn.local_ty(t['dest']['l']) if not t['dest']['p'] else ''))
         if n in self.LEN_FNS:
             a = t['args'][0]
             if is_place(a):
@@ -838,6 +861,10 @@ class Analyzer:
                         out.append(add(lin(a), lin(c=-1)))
             elif a.startswith('P:'):
                 ty = self._place_ty.get(a)
+                if ty in UMAX:
+                    out.append(add(lin(a), lin(c=-UMAX[ty])))
+            elif a.startswith('pure:'):
+                ty = getattr(self, '_pure_ty', {}).get(a)
                 if ty in UMAX:
                     out.append(add(lin(a), lin(c=-UMAX[ty])))
         return out
